@@ -76,9 +76,14 @@ class Loss(functional.Functional):
         self.f = f
         self.scale = scale
 
-        # Set functional-specific flags
-        self.has_eval = True
-        if self.f is not None and isinstance(self.A, linop.Identity):
+        # Set functional-specific flags: evaluation needs either a functional that
+        # can be evaluated or a derived class that overrides __call__; the generic
+        # prox needs a functional with a prox and an identity forward operator.
+        if self.f is not None:
+            self.has_eval = bool(self.f.has_eval)
+        else:
+            self.has_eval = type(self).__call__ is not Loss.__call__
+        if self.f is not None and self.f.has_prox and isinstance(self.A, linop.Identity):
             self.has_prox = True
         else:
             self.has_prox = False
